@@ -959,12 +959,19 @@ def u_g1(ctx, u):
     # octet decoding: range and prefix decisions
     A = pts[0][1]
     back = ctx.buf(SZ)
-    for octs, why in ((b'\x04' + (A[0] + P).to_bytes(32, 'big') + A[1].to_bytes(32, 'big'), 'x+p'),
-                      (b'\x04' + A[0].to_bytes(32, 'big') + (A[1] + P).to_bytes(32, 'big'), 'y+p') if A[1] + P < R256 else None,
-                      (b'\x03' + R.g1_bytes(A)[1:], 'prefix03'), (b'\x00' + R.g1_bytes(A)[1:], 'prefix00'),
-                      (b'\x04' + bytes(64), 'zero'), (b'\x04' + b'\xff' * 64, 'ff')):
-        if octs is None or (why == 'x+p' and A[0] + P >= R256):
-            continue
+    gb = R.g1_bytes(A)
+    inval = [(b'\x03' + gb[1:], 'prefix03'), (b'\x00' + gb[1:], 'prefix00'), (b'\x04' + bytes(64), 'zero'),
+             (b'\x04' + b'\xff' * 64, 'ff'), (b'\x04' + P.to_bytes(32, 'big') + gb[33:], 'x=p'),
+             (b'\x04' + gb[1:33] + P.to_bytes(32, 'big'), 'y=p')]
+    for k_, B_ in pts:          # x + p and y + p only fit in 32 bytes for small coordinates
+        if B_[0] + P < R256:
+            inval.append((b'\x04' + (B_[0] + P).to_bytes(32, 'big') + B_[1].to_bytes(32, 'big'), 'x+p'))
+            break
+    for k_, B_ in pts:
+        if B_[1] + P < R256:
+            inval.append((b'\x04' + B_[0].to_bytes(32, 'big') + (B_[1] + P).to_bytes(32, 'big'), 'y+p'))
+            break
+    for octs, why in inval:
         ob = ctx.inbuf(octs)
         rc = lib.sm9_z256_point_from_uncompressed_octets(back, ob)
         ctx.check(rc != 1, 'point_from_uncompressed_octets:accepts-invalid', why=why, ret=rc)
